@@ -24,13 +24,26 @@ class State:
         self.results = {}     # op index -> result of observation ops
         self.dns_done = {}
         self.detached = set()  # stand-alone bundles not (yet) attached to the document
+        self.nspool = {}
+
+    def namespace(self, prefix, uri):
+        """Programs reuse their Namespace objects (as users do: EX = Namespace('ex', ...); EX['a'], doc.add_namespace(EX)),
+        for two out of three (prefix, uri) pairs; the rest get a fresh object each time."""
+        key = (prefix, uri)
+        import zlib
+        if zlib.crc32(("%s|%s" % key).encode("utf-8")) % 3 == 0:
+            return Namespace(prefix, uri)
+        ns = self.nspool.get(key)
+        if ns is None:
+            ns = self.nspool[key] = Namespace(prefix, uri)
+        return ns
 
     def mk_name(self, spec):
         if spec is None:
             return None
         f = spec["form"]
         if f == "qn":
-            return Namespace(spec["prefix"], spec["ns"])[spec["local"]]
+            return self.namespace(spec["prefix"], spec["ns"])[spec["local"]]
         if f == "xsd":
             return XSD[spec["local"]]
         if f == "prov":
@@ -89,6 +102,8 @@ def exec_op(st, op):
     if k in ("ns", "dns", "rec", "lookup") and op[1] not in st.tg:
         raise Skip("no-target")
     if k == "ns":
+        if op[2] and len(op[3]) % 2 == 0:
+            return st.tg[op[1]].add_namespace(st.namespace(op[2], op[3]))     # the Namespace object itself
         return st.tg[op[1]].add_namespace(op[2], op[3])
     if k == "dns":
         t = op[1]
@@ -250,7 +265,7 @@ def make_observer(rng, p=0.35):
             conts = [doc] + list(doc.bundles) + [st.tg[t] for t in st.detached if t in st.tg]
             c = rng.choice(conts)
             recs = c.get_records()
-            what = rng.choice(["accessors", "provn", "json", "eqhash", "lookup", "listing", "repr"])
+            what = rng.choice(["accessors", "provn", "json", "eqhash", "lookup", "listing", "repr", "xml", "copy"])
             if what == "accessors":
                 for r_ in recs[-4:]:
                     r_.args, r_.formal_attributes, r_.extra_attributes, r_.attributes
@@ -265,6 +280,14 @@ def make_observer(rng, p=0.35):
                     r_.get_provn()
             elif what == "json":
                 doc.serialize(format="json")
+            elif what == "xml":
+                try:
+                    doc.serialize(format="xml")
+                except ValueError:
+                    pass        # documents outside the XML space (control characters, IRIs as namespace names) are refused by lxml
+            elif what == "copy":
+                for r_ in recs[-3:]:
+                    r_.copy()
             elif what == "eqhash":
                 for r_ in recs[-4:]:
                     hash(r_)
